@@ -154,10 +154,17 @@ Definition propagate_dft (shift_of : field S -> Qc * Qc) (w : wavefront) (dur du
 Definition wfield (w : wavefront) : result (arr S) := render (wdata w) (fst (wshape w)) (snd (wshape w)).
 Definition wintensity (w : wavefront) : result (arr S) := intensity (wdata w) (fst (wshape w)) (snd (wshape w)).
 
+(* ---- specification vocabulary (not code) ----
+   the Fraunhofer sum of an infinite plane g supported in the box [-B, B]^2, optical axis at
+   coordinate (0, 0), evaluated at output coordinates (U, V) *)
+Definition plane_fraunhofer (B : Z) (g : Z -> Z -> S) (ar ac : Qc) (U V : Qc) : S :=
+  sumZ (2 * B + 1) (fun x => sumZ (2 * B + 1) (fun y =>
+    (g (x - B)%Z (y - B)%Z * ke (ar * zq (x - B) * U + ac * zq (y - B) * V)%Qc)%K)).
+
 (* Field.shift for a field without tilt elements *)
 Definition no_shift (f : field S) : Qc * Qc := (0%Qc, 0%Qc).
 End Propagate.
 
 Arguments mkWf {S}. Arguments wwl {S}. Arguments wps {S}. Arguments wfocal {S}. Arguments wshape {S}.
 Arguments wptype {S}. Arguments wdata {S}. Arguments prop_field {S}. Arguments prop_fields {S}.
-Arguments propagate_dft {S}. Arguments wfield {S}. Arguments wintensity {S}. Arguments no_shift {S}.
+Arguments propagate_dft {S}. Arguments plane_fraunhofer {S}. Arguments wfield {S}. Arguments wintensity {S}. Arguments no_shift {S}.
